@@ -475,6 +475,7 @@ pub struct Ns;
 
 const XML_URI: &[u8] = b"http://www.w3.org/XML/1998/namespace";
 const XMLNS_URI: &[u8] = b"http://www.w3.org/2000/xmlns/";
+const XSI_URI: &[u8] = b"http://www.w3.org/2001/XMLSchema-instance";
 const PROBE_PREFIXES: &[&str] = &["", "p", "q", "r", "xml", "xmlns", "z"];
 
 #[derive(Clone, Debug, Default)]
@@ -723,6 +724,8 @@ impl Scenario for Ns {
         }
         let mut skips = 0u64;
         let mut reserved_checks = 0u64;
+        let mut nil_checks = 0u64;
+        let mut nil_true = 0u64;
         let mut mid_skips = 0u64;
         let mut shadow = false;
         let mut decl_seen = false;
@@ -869,6 +872,45 @@ impl Scenario for Ns {
                         v.push(Violation::new("C05", "event-desync", format!("op {}: model expects {:?}, reader returned {:?}", oi, want, ev)));
                         return;
                     }
+                    // the event's own attributes: each name resolved in the scope that now
+                    // includes the element's declarations, and the xsi:nil test built on it
+                    if let (Want::Start(t) | Want::Empty(t), Event::Start(bs) | Event::Empty(bs)) = (&want, &ev) {
+                        let mut want_nil = false;
+                        for (k, val) in &toks[*t].attrs {
+                            let is_decl = k == "xmlns" || k.starts_with("xmlns:");
+                            let want_res = if is_decl {
+                                // `xmlns:p` is itself a name with prefix `xmlns`; a bare `xmlns` is unprefixed
+                                if k == "xmlns" { Res::Unbound } else { Res::Bound(XMLNS_URI.to_vec()) }
+                            } else {
+                                model_resolve(&stack, prefix_of(k), true)
+                            };
+                            let got = rd.resolve(k.as_bytes(), true).unwrap();
+                            if got.0 != want_res {
+                                v.push(Violation::new(
+                                    "C05",
+                                    "wrong-resolution",
+                                    format!("op {}: attribute {:?} of <{}>: resolve_attribute = {:?}, declarations in scope give {:?}", oi, k, toks[*t].name, got.0, want_res),
+                                ));
+                                return;
+                            }
+                            let local = k.rsplit(':').next().unwrap_or("");
+                            if !is_decl && local == "nil" && want_res == Res::Bound(XSI_URI.to_vec()) && (val == "true" || val == "1") {
+                                want_nil = true;
+                            }
+                        }
+                        nil_checks += 1;
+                        if rd.has_nil(bs) != Some(want_nil) {
+                            v.push(Violation::new(
+                                "C05",
+                                "wrong-resolution",
+                                format!("op {}: has_nil() of <{}> = {:?}, attributes and declarations in scope give {}", oi, toks[*t].name, rd.has_nil(bs), want_nil),
+                            ));
+                            return;
+                        }
+                        if want_nil {
+                            nil_true += 1;
+                        }
+                    }
                     if resolved {
                         let want_res = match &elem_name {
                             Some(n) => model_resolve(&stack, prefix_of(n), false),
@@ -940,6 +982,8 @@ impl Scenario for Ns {
         st.add("op.skip", skips);
         st.add("op.skip_after_children_were_read", mid_skips);
         st.add("model.reserved_prefix_errors_checked", reserved_checks);
+        st.add("model.has_nil_checked", nil_checks);
+        st.add("model.has_nil_true", nil_true);
         st.bump(&format!("source.{}", plan.stream.kind.name()));
         if let Err(p) = res {
             panic_to_violation(&p, plan, "ns run", "C03", &mut out);
